@@ -87,6 +87,34 @@ func genBase(r *lib.Rng, ct geom.CoordinatesType, kind lib.Kind, depth int, ox i
 	}
 	n := &lib.Node{Kind: kind, CT: ct}
 	k := r.Range(1, 3)
+	if kind == lib.KMPoly && r.Chance(1, 3) {
+		// members whose ENVELOPES overlap while their boundaries are disjoint (the path of
+		// MultiPolygon.Validate that probes one vertex of each member against the other): a
+		// square ring and a polygon in its hole, or two interlocked L shapes; sometimes a third
+		// member in the next band.  An empty member inserted in front of or between them shifts
+		// every member index.
+		if r.Bool() {
+			n.Kids = append(n.Kids,
+				&lib.Node{Kind: lib.KPoly, CT: ct, Kids: []*lib.Node{
+					ring(r, ct, [][2]int{{ox, 0}, {ox + 6, 0}, {ox + 6, 6}, {ox, 6}}),
+					ring(r, ct, [][2]int{{ox + 1, 1}, {ox + 1, 5}, {ox + 5, 5}, {ox + 5, 1}})}},
+				&lib.Node{Kind: lib.KPoly, CT: ct, Kids: []*lib.Node{
+					ring(r, ct, [][2]int{{ox + 2, 2}, {ox + 4, 2}, {ox + 2 + r.Range(0, 2), 4}})}})
+		} else {
+			n.Kids = append(n.Kids,
+				&lib.Node{Kind: lib.KPoly, CT: ct, Kids: []*lib.Node{
+					ring(r, ct, [][2]int{{ox, 0}, {ox + 6, 0}, {ox + 6, 1}, {ox + 1, 1}, {ox + 1, 6}, {ox, 6}})}},
+				&lib.Node{Kind: lib.KPoly, CT: ct, Kids: []*lib.Node{
+					ring(r, ct, [][2]int{{ox + 6, 6}, {ox + 2, 6}, {ox + 2, 5}, {ox + 5, 5}, {ox + 5, 2}, {ox + 6, 2}})}})
+		}
+		if r.Bool() {
+			n.Kids[0], n.Kids[1] = n.Kids[1], n.Kids[0]
+		}
+		if r.Chance(1, 3) {
+			n.Kids = append(n.Kids, genPoly(r, ct, ox+8))
+		}
+		return n
+	}
 	for i := 0; i < k; i++ {
 		bx := ox + 8*i
 		switch kind {
